@@ -427,20 +427,19 @@ def decode_groups(c, rec):
     """From the logged right-hand-side calls reconstruct which components were perturbed together.
 
     An FD evaluation is a call at t == t0 whose argument equals y0 except in a non-empty set of
-    components c where it equals y0[c] + 2^-26 * max(|y0[c]|, 1) bit for bit (sqrt(EPSILON) = 2^-26
-    exactly; same formula as the code).  Only the first Jacobian (consecutive block) is decoded."""
+    components, each moved by a small amount (at most 1e-3 max(|y0[c]|, 1): the size of the
+    perturbation is the code's business - the stepper's own stages are evaluated at other times).
+    Only the first Jacobian (consecutive block) is decoded."""
     t0 = untok(c["t0"])
     y0 = [untok(s) for s in c["y0"]]
     n = c["n"]
-    eps = 2.0 ** -26
-    pert = [y0[i] + eps * max(abs(y0[i]), 1.0) for i in range(n)]
     groups = []
     started = False
     for (t, y) in rec.log:
         is_fd = False
         if t == t0 and len(y) == n:
             cols = [i for i in range(n) if y[i] != y0[i]]
-            if cols and all(y[i] == pert[i] for i in cols):
+            if cols and all(abs(y[i] - y0[i]) <= 1e-3 * max(abs(y0[i]), 1.0) for i in cols):
                 is_fd = True
         if is_fd:
             started = True
